@@ -116,6 +116,7 @@ def _(self) -> Nat:
     raises(OutOfDataError)
     assigns(self)
     ensures(self.value == old(self.value))
+    ensures(self.number_of_bits < old(self.number_of_bits))
     ensures(self.number_of_bits == old(self.number_of_bits) - oer_ld_size(self.value, old(self.number_of_bits))
             - 8 * oer_ld_val(self.value, old(self.number_of_bits)))
 
